@@ -7,6 +7,7 @@ package gmtls
 import (
 	"crypto"
 	"crypto/cipher"
+	"crypto/ecdsa"
 	"crypto/hmac"
 	"encoding/pem"
 	"errors"
@@ -400,6 +401,15 @@ func matchKeyCert(keyDERBlock *pem.Block, certDERBlock []byte) (crypto.PrivateKe
 	case *sm2.PublicKey:
 		priv, ok := privateKey.(*sm2.PrivateKey)
 		if !ok {
+			return nil, errors.New("tls: private key type does not match public key type")
+		}
+		if pub.X.Cmp(priv.X) != 0 || pub.Y.Cmp(priv.Y) != 0 {
+			return nil, errors.New("tls: private key does not match public key")
+		}
+	case *ecdsa.PublicKey:
+		// the certificate parser hands an SM2 key back as *ecdsa.PublicKey on the SM2 curve
+		priv, ok := privateKey.(*sm2.PrivateKey)
+		if !ok || pub.Curve != sm2.P256Sm2() {
 			return nil, errors.New("tls: private key type does not match public key type")
 		}
 		if pub.X.Cmp(priv.X) != 0 || pub.Y.Cmp(priv.Y) != 0 {
